@@ -79,17 +79,19 @@ def _compress_structure():
     def has_round_loop(fn):
         # the decimal search: a loop (count(...) or range(...)) whose body calls np.round(<array>, <loop variable>)
         for n in ast.walk(fn):
-            if isinstance(n, ast.For) and isinstance(n.target, ast.Name):
+            if isinstance(n, (ast.For, ast.While)):
                 for c in ast.walk(n):
                     if (isinstance(c, ast.Call) and isinstance(c.func, ast.Attribute) and c.func.attr == "round" and len(c.args) == 2
-                            and isinstance(c.args[1], ast.Name) and c.args[1].id == n.target.id):
-                        return n
+                            and isinstance(c.args[1], ast.Name)):
+                        if isinstance(n, ast.While) or (isinstance(n.target, ast.Name) and n.target.id == c.args[1].id):
+                            n._round_var = c.args[1].id          # the decimal counter, whether a `for` target or a hand-stepped local
+                            return n
         return None
 
     def has_len_eq(fn):
         for c in ast.walk(fn):
             if (isinstance(c, ast.Compare) and isinstance(c.left, ast.Call) and getattr(c.left.func, "id", "") == "len"
-                    and isinstance(c.ops[0], ast.Eq) and isinstance(c.comparators[0], ast.Constant)):
+                    and isinstance(c.ops[0], (ast.Eq, ast.NotEq)) and isinstance(c.comparators[0], ast.Constant)):
                 return c
         return None
 
@@ -175,7 +177,10 @@ def gen_lean():
 
     for n in sorted((x for x in ast.walk(fb) if isinstance(x, ast.Assign)), key=lambda x: x.lineno):
         v = n.value
+        # `later = earlier + [<encoding object>]` — a list of the encoding objects themselves (a parallel list of their
+        # serialised forms, `+ [encoding.serialize()]`, is bookkeeping for the size estimate, not a chain)
         if (isinstance(v, ast.BinOp) and isinstance(v.op, ast.Add) and isinstance(v.left, ast.Name) and isinstance(v.right, ast.List)
+                and len(v.right.elts) == 1 and isinstance(v.right.elts[0], ast.Name)
                 and len(n.targets) == 1 and isinstance(n.targets[0], ast.Name)):
             extends.append((canon(n.targets[0].id), canon(v.left.id)))
     ladders = []
@@ -184,11 +189,11 @@ def gen_lean():
         ladders.append([e.attr.replace("uint", "u").replace("int", "i") for e in n.iter.elts])
     # the decimal search gives up beyond N decimals: either `if <var> > N: return None` inside an unbounded count(), or a bounded range(_, N + 1)
     loop = cs["round_loop"](cs["decimals"])
-    var = loop.target.id
+    var = loop._round_var
     dec_guards = [lit(c.comparators[0]) for c in ast.walk(loop)
                   if isinstance(c, ast.Compare) and isinstance(c.left, ast.Name) and c.left.id == var and isinstance(c.ops[0], ast.Gt)
                   and isinstance(c.comparators[0], ast.Constant)]
-    it = loop.iter
+    it = getattr(loop, "iter", None)
     if isinstance(it, ast.Call) and getattr(it.func, "id", "") == "range" and len(it.args) == 2:
         try:
             dec_guards.append(int(eval(compile(ast.Expression(it.args[1]), "<range stop>", "eval"), {"__builtins__": {}})) - 1)
